@@ -129,6 +129,13 @@ class FuncInfo:
         return f"<func {self.qualname}>"
 
 
+def exc_expr(raise_node: ast.Raise):
+    """What a raise statement raises: the expression itself, or - for `raise NAME` where NAME
+    is a local bound exactly once to a constructor call (`exc = TimeoutError(...); ...;
+    raise exc`) - that call (annotated by the normalisation pre-pass)."""
+    return getattr(raise_node, "_exc_resolved", None) or raise_node.exc
+
+
 def walk_own(node: ast.AST) -> Iterator[ast.AST]:
     """Walk the nodes that belong to this function body, not descending into nested
     function definitions / lambdas / classes (their headers' defaults and decorators are
